@@ -173,16 +173,21 @@ EndModel ==
   /\ UNCHANGED <<sc, round, queue, newp, delayed, rcnt, attrs, attempts, resolved, outcome, op>>
 
 \* all models visited: the progress test of the while loop
+\* (StopAfterTwoRounds / ErrorNamesAllReferences are not observed in textX; they exist to show
+\*  that C09_Verdict is not vacuous: TLC reports it violated when one of them is switched on)
 EndRound ==
   /\ pc = "model" /\ todo = {}
-  /\ pc' = IF ucnt > 0 /\ rcnt > 0 THEN "begin" ELSE "exit"
+  /\ pc' = IF ucnt > 0 /\ rcnt > 0 /\ ("StopAfterTwoRounds" \notin Dev \/ round < 2)
+           THEN "begin" ELSE "exit"
   /\ UNCHANGED <<sc, round, todo, cur, queue, newp, pending, delayed, rcnt, ucnt, attrs,
                  attempts, resolved, outcome, op>>
 
 \* no progress: the error names every delayed reference, model after model
 FailUnresolvable ==
   /\ pc = "exit" /\ ucnt > 0
-  /\ outcome' = [kind |-> "unresolvable", names |-> Flat([m \in Models |-> delayed[m]])]
+  /\ outcome' = [kind |-> "unresolvable",
+                 names |-> IF "ErrorNamesAllReferences" \in Dev THEN [i \in 1..N |-> i]
+                           ELSE Flat([m \in Models |-> delayed[m]])]
   /\ pc' = "idle"
   /\ UNCHANGED <<sc, round, todo, cur, queue, newp, pending, delayed, rcnt, ucnt, attrs,
                  attempts, resolved, op>>
